@@ -159,6 +159,9 @@ func renderSafeJob(j job) any {
 		switch {
 		case ei.Class == "none" && o.html == "":
 			r["trichotomy"] = "no html and no error"
+			if ast, perr := mjml.ParseMJML(j.str("src")); perr == nil && ast != nil {
+				r["root"] = ast.XMLName.Local
+			}
 		case ei.Class == "validation" && o.html == "":
 			r["trichotomy"] = "validation error without html"
 		case ei.Class == "error" && o.html != "":
